@@ -30,6 +30,7 @@ type boolFrame struct {
 	fn    *ssa.Function
 	roles map[ssa.Value]string // parameter -> role
 	env   map[ssa.Value]bool
+	ienv  map[ssa.Value]int64 // integer phis all of whose edges are constants (an axis selector)
 	prev  *ssa.BasicBlock
 }
 
@@ -155,6 +156,17 @@ func (bi *boolInterp) run(fr *boolFrame, b *ssa.BasicBlock, stop map[*ssa.BasicB
 			switch x := in.(type) {
 			case *ssa.Phi:
 				if !isBoolType(x.Type()) {
+					// an integer selector: all edges constant
+					for i, p := range b.Preds {
+						if p == fr.prev {
+							if k, ok := x.Edges[i].(*ssa.Const); ok && k.Value != nil && k.Value.Kind() == constant.Int {
+								if fr.ienv == nil {
+									fr.ienv = map[ssa.Value]int64{}
+								}
+								fr.ienv[x] = k.Int64()
+							}
+						}
+					}
 					continue
 				}
 				for i, p := range b.Preds {
